@@ -205,7 +205,7 @@ class Engine:
             fnode, seg, _ = locate(self.repo, fs.file, fs.name)
             if fnode is None:
                 raise OutOfSubset(f"function {fs.name} not found in {fs.file}")
-            self.functions_info[fs.name] = {
+            self.functions_info[fs.unit] = {
                 "file": fs.file,
                 "qualname": fs.name,
                 "sha256": hashlib.sha256(seg.encode()).hexdigest(),
@@ -213,9 +213,19 @@ class Engine:
                 "async": isinstance(fnode, ast.AsyncFunctionDef),
             }
 
+        stmt = None
+        if fs.kind != "lemma" and fs.options.get("stmt"):
+            from .contracts import locate_stmt
+
+            stmt = locate_stmt(fnode, fs.options["stmt"])
+            if stmt is None:
+                raise OutOfSubset(f"statement {fs.options['stmt']} not found in {fs.name}")
+            self.functions_info[fs.unit]["extracted_statement"] = fs.options["stmt"]
+            self.functions_info[fs.unit]["extraction_drops"] = "all statements of the function outside the selected statement; its free variables are the contract parameters"
+
         def runner(dec):
             it = Interp(self, fs, dec)
-            return it.run_top(fnode)
+            return it.run_top(fnode, stmt)
 
         return self.explore(runner)
 
@@ -232,7 +242,7 @@ class Interp:
         self.obls = []
         self.spec = spec_only  # spec mode: pure evaluation, no branching, no obligations
         self.loopnum = {}
-        self.fname = fs.name if fs else "?"
+        self.fname = fs.unit if fs else "?"
         self.callsite_counter = {}
         self.frames = []  # inline call stack (names) to stop recursion
         self.result = None
@@ -437,6 +447,9 @@ class Interp:
         for name, so, dflt in fs.params:
             if so is None:
                 raise OutOfSubset(f"{fs.name}: parameter {name} has no sort")
+            if so is S.TExc:
+                env[name] = ExcObj("BaseException", (), origin="param:" + name)
+                continue
             v = so.const("in." + name)
             env[name] = v
             self.st.inputs[name] = v
@@ -490,7 +503,7 @@ class Interp:
             )
         )
 
-    def run_top(self, fnode):
+    def run_top(self, fnode, stmt=None):
         fs = self.fs
         try:
             self.loopnum = number_loops(fnode)
@@ -507,7 +520,7 @@ class Interp:
                 return self.obls
             outcome = ("normal", NONE)
             try:
-                body = fs.ghost_body if fs.kind == "lemma" else fnode.body
+                body = fs.ghost_body if fs.kind == "lemma" else ([stmt] if stmt is not None else fnode.body)
                 self.exec_block(body)
             except ReturnSig as r:
                 outcome = ("normal", r.value)
@@ -530,7 +543,7 @@ class Interp:
             self.st.locals = env
             for k, (en, when, strict) in enumerate(fs.raises):
                 if when is not None and strict:
-                    self.oblige(f"raises#{k}:not-raised", z3.Not(self.ev_spec(when, old_ok=True)), {"exc": en})
+                    self.oblige(f"raises#{k}:not-raised", z3.Not(self.ev_when(when)), {"exc": en, "clause": "normal return although: " + ast.unparse(when)})
             for k, e in enumerate(fs.ensures):
                 self.oblige(f"post#{k}", self.ev_spec(e), {"clause": ast.unparse(e)})
             self.check_frame(fs)
@@ -538,13 +551,16 @@ class Interp:
             self.oblige("canary", z3.BoolVal(False), {"exit": "normal"})
             self.obls[-1].expect = "sat"
         else:
+            env["raised"] = val
             self.st.locals = env
             conds = []
             for k, (en, when, strict) in enumerate(fs.raises):
                 if self.m.exc_is(val.cls, en):
-                    conds.append(self.ev_spec(when, old_ok=True) if when is not None else z3.BoolVal(True))
+                    conds.append(self.ev_when(when) if when is not None else z3.BoolVal(True))
+                    if fs.raise_ensures[k] is not None:
+                        self.oblige(f"raises#{k}:ensures", self.ev_spec(fs.raise_ensures[k]), {"clause": ast.unparse(fs.raise_ensures[k]), "exc": en})
             goal = z3.Or(*conds) if conds else z3.BoolVal(False)
-            self.oblige(f"exc:{val.cls}", goal, {"raised": val.cls, "origin": val.origin})
+            self.oblige(f"exc:{val.cls}", goal, {"raised": val.cls, "origin": str(val.origin), "clause": f"{val.cls} may only be raised as the contract declares"})
             if conds:
                 self.check_frame(fs, exceptional=True)
         self.st.locals = saved_locals
@@ -589,6 +605,11 @@ class Interp:
     def ev_spec(self, node, old_ok=True):
         """evaluate a contract expression to a z3 Bool in the current env"""
         v = self.ev_spec_val(node)
+        return self.truthy(v) if not (isinstance(v, V) and v.sort is TBool) else v.t
+
+    def ev_when(self, node):
+        """`when=` conditions of raises clauses speak about the state at entry"""
+        v = self.ev_spec_val(node, in_old=True)
         return self.truthy(v) if not (isinstance(v, V) and v.sort is TBool) else v.t
 
     def ev_spec_val(self, node, in_old=False):
@@ -1037,6 +1058,8 @@ class Interp:
             return self.bound[name]
         if name in self.st.locals:
             return self.st.locals[name]
+        if name == "result" and self.spec:
+            raise OutOfSubset("`result` used where there is none")
         return self.global_name(name, n)
 
     def global_name(self, name, n=None):
@@ -1210,6 +1233,10 @@ class Interp:
         if isinstance(op, (ast.In, ast.NotIn)):
             r = contains(self, b, a)
             return r if isinstance(op, ast.In) else z3.Not(r)
+        if isinstance(a, V) and isinstance(a.sort, S.TOpt):
+            a = a.sort.payload(a)  # A-TYPES: ordering against None is a dynamic type error, not modelled
+        if isinstance(b, V) and isinstance(b.sort, S.TOpt):
+            b = b.sort.payload(b)
         a, b = self.unify(a, b)
         if a.sort in (TInt, TReal):
             return {ast.Lt: a.t < b.t, ast.LtE: a.t <= b.t, ast.Gt: a.t > b.t, ast.GtE: a.t >= b.t}[type(op)]
@@ -1329,14 +1356,19 @@ class Interp:
         if r is not NotImplemented:
             return r
         f = self.ev(n.func)
+        ignore = isinstance(f, FuncObj) and f.name in self.m.contracts and self.m.contracts[f.name].options.get("ignore_args")
         args = []
         for a in n.args:
             if isinstance(a, ast.Starred):
+                if ignore:
+                    continue
                 raise OutOfSubset("*args at call")
             args.append(self.ev(a))
         kwargs = {}
         for kw in n.keywords:
             if kw.arg is None:
+                if ignore:
+                    continue
                 raise OutOfSubset("**kwargs at call")
             kwargs[kw.arg] = self.ev(kw.value)
         return self.call(f, args, kwargs, n)
@@ -1406,7 +1438,7 @@ class Interp:
                 if dflt is None:
                     raise OutOfSubset(f"missing arg {nme} for {what}")
                 env[nme] = self.ev_spec_val(dflt)
-            if so is not None:
+            if so is not None and so is not S.TExc:
                 env[nme] = self.coerce(env[nme], so)
         return env
 
@@ -1457,12 +1489,10 @@ class Interp:
                     taken = self.branch(c)
                     self.st.locals = env
                     if taken:
-                        self.havoc_assigns(fs, pre_st)
-                        raise PyRaise(ExcObj(en, (), origin=f"call {fs.name}"))
+                        self.raise_from_call(fs, k, en, env, pre_st)
                 else:
                     if self.choose(2) == 1:
-                        self.havoc_assigns(fs, pre_st)
-                        raise PyRaise(ExcObj(en, (), origin=f"call {fs.name}"))
+                        self.raise_from_call(fs, k, en, env, pre_st)
             self.havoc_assigns(fs, pre_st)
             res = NONE
             if fs.ret is not None and fs.ret is not TNone:
@@ -1478,6 +1508,18 @@ class Interp:
             return res
         finally:
             self.st.locals, self.old_st, self.bound = saved_locals, saved_old, saved_bound
+
+    def raise_from_call(self, fs, k, en, env, pre_st):
+        self.st.locals = env
+        self.havoc_assigns(fs, pre_st)
+        if fs.raise_ensures[k] is not None:
+            self.st.assume(self.ev_spec(fs.raise_ensures[k]))
+        exc = ExcObj(en, (), origin=f"call {fs.name}")
+        for nme, so, _ in fs.params:
+            # a callee declared to re-raise the exception object it was given
+            if so is S.TExc and fs.options.get("reraises") == nme:
+                exc = env[nme]
+        raise PyRaise(exc)
 
     def havoc_assigns(self, fs, pre_st):
         for a in fs.assigns:
